@@ -888,6 +888,268 @@ impl CrashX {
     }
 }
 
+// ---------------------------------------------------------------------------------------------
+// C14: fault injection
+
+fn api_error_fingerprint(fp: &str) -> bool {
+    matches!(
+        fp,
+        "commit-err" | "finish-err" | "rollback-refused" | "reopen-err" | "overlay-commit-refused" | "valid-commit-refused" | "open-err" | "session-read"
+    )
+}
+
+impl CrashX {
+    fn run_faults(&mut self, prop: &str, case: &Value) -> Outcome {
+        let hist = &case["hist"];
+        let target = case["target"].as_u64().unwrap() as usize;
+        let skip = case["skip"].as_u64().unwrap_or(0);
+        let mut out = Outcome::default();
+        out.nontrivial = true;
+        // 1. reference run: which operations does the traced op perform?
+        let (ex, _pre, old, tr, _) = match self.run_traced(prop, hist, target) {
+            Ok(x) => x,
+            Err(v) => {
+                out.violation = Some(v);
+                return out;
+            }
+        };
+        let new = ex.model.clone();
+        let uni = ex.uni.clone();
+        let cfg0 = ex.cfg.clone();
+        let _ = ex.finish(Ok(()));
+        let returned = tr.returned.unwrap_or(u64::MAX);
+        let mut counts: BTreeMap<(String, &'static str), u64> = BTreeMap::new();
+        let mut targets: Vec<(String, &'static str, u64, bool)> = vec![]; // file, tag, ordinal, is page write
+        for e in &tr.events {
+            if matches!(e.kind, vio::Kind::Mark(_)) || e.seq > returned {
+                continue;
+            }
+            let c = counts.entry((e.file.clone(), e.kind.tag())).or_insert(0);
+            let pagew = matches!(e.kind, vio::Kind::Write { .. }) && (e.file == "ln" || e.file == "bbn" || e.file == "ht") && e.thread.contains("io-worker") == false && tr.events.iter().any(|_| true);
+            targets.push((e.file.clone(), e.kind.tag(), *c, pagew));
+            *c += 1;
+        }
+        let mut found: BTreeMap<String, String> = BTreeMap::new();
+        let mut step_no = 0u64;
+        let ops = hist["ops"].as_array().unwrap();
+        let is_reopen = ops[target].get("reopen").is_some();
+        for (file, tag, ordinal, _pagew) in targets.iter() {
+            let page_modes: Vec<vio::PageFaultAt> = if *tag == "write" && (file == "ln" || file == "bbn" || file == "ht") {
+                vec![vio::PageFaultAt::Submission, vio::PageFaultAt::Completion]
+            } else {
+                vec![vio::PageFaultAt::Submission]
+            };
+            for persistent in [false, true] {
+                for page_at in page_modes.iter() {
+                    step_no += 1;
+                    if step_no <= skip {
+                        continue;
+                    }
+                    let fclass = format!("{}:{}", if file.starts_with("rollback") { "rollback-segment" } else { file.as_str() }, tag);
+                    let what = format!(
+                        "op #{target} ({}) with {}failure injected at {file}:{tag}#{ordinal}{}",
+                        ops[target].as_object().unwrap().keys().next().unwrap(),
+                        if persistent { "persistent " } else { "" },
+                        if *page_at == vio::PageFaultAt::Completion { " (reported at completion)" } else { "" }
+                    );
+                    println!("{}", json!({"progress": format!("{step_no}|{fclass}|{what}")}));
+                    out.transitions += 1;
+                    let mut record_v = |fp: String, msg: String, found: &mut BTreeMap<String, String>| {
+                        found.entry(fp).or_insert(msg);
+                    };
+                    // fresh execution of the prefix
+                    let mut ex = self.hist.start(prop, hist);
+                    if let Err(v) = ex.open() {
+                        record_v(v.fingerprint, v.msg, &mut found);
+                        continue;
+                    }
+                    let mut bad_prefix = false;
+                    for (i, op) in ops.iter().enumerate().take(target) {
+                        if let Err(v) = ex.step(i, op) {
+                            record_v(v.fingerprint, v.msg, &mut found);
+                            bad_prefix = true;
+                            break;
+                        }
+                    }
+                    if bad_prefix {
+                        let _ = ex.finish(Ok(()));
+                        continue;
+                    }
+                    if is_reopen {
+                        ex.n = None;
+                    }
+                    vio::enable();
+                    vio::arm(vio::Fault {
+                        file: file.clone(),
+                        tag: tag.to_string(),
+                        ordinal: *ordinal,
+                        persistent,
+                        page_at: *page_at,
+                        abort: false,
+                    });
+                    let r = std::panic::catch_unwind(std::panic::AssertUnwindSafe(|| {
+                        let r = ex.step(target, &ops[target]);
+                        if r.is_ok() {
+                            vio::mark("op_returned_ok");
+                        }
+                        r
+                    }));
+                    let (events, fired) = vio::disable();
+                    let ftr = Trace::new(events);
+                    if fired == 0 {
+                        out.goals.push("fault-not-reached");
+                        let _ = ex.finish(Ok(()));
+                        continue;
+                    }
+                    out.goals.push("fault-fired");
+                    let fired_in_call = ftr.events.iter().any(|e| e.injected && e.seq < ftr.returned.unwrap_or(u64::MAX));
+                    // the post-state is acceptable as soon as the switch-over record may have reached
+                    // the file: i.e. once the meta write was issued (whether or not its fsync failed)
+                    let meta_durable = ftr.events.iter().any(|e| e.file == "meta" && matches!(e.kind, vio::Kind::Write { .. }) && !e.injected);
+                    match r {
+                        Err(_) => {
+                            record_v(
+                                format!("fault-panic:{fclass}"),
+                                format!("{what}: the call panicked (at {}) instead of returning an error", crate::last_panic_location()),
+                                &mut found,
+                            );
+                            // the executor may be in an odd state: leak it rather than unwinding again
+                            std::mem::forget(ex);
+                            continue;
+                        }
+                        Ok(Ok(())) => {
+                            if fired_in_call {
+                                record_v(
+                                    format!("swallowed:{fclass}"),
+                                    format!("{what}: the call returned success although the injected I/O failure happened inside it"),
+                                    &mut found,
+                                );
+                            }
+                            let _ = ex.finish(Ok(()));
+                            continue;
+                        }
+                        Ok(Err(v)) => {
+                            if !api_error_fingerprint(&v.fingerprint) {
+                                record_v(format!("fault-other:{}", v.fingerprint), format!("{what}: {}", v.msg), &mut found);
+                                let _ = ex.finish(Ok(()));
+                                continue;
+                            }
+                            out.goals.push("fault-reported");
+                        }
+                    }
+                    // the call returned an error: poisoned, refuses further commits
+                    if !is_reopen {
+                        if let Some(n) = ex.n.as_ref() {
+                            if !n.is_poisoned() {
+                                record_v(
+                                    format!("not-poisoned:{fclass}"),
+                                    format!("{what}: the call failed but is_poisoned() is false"),
+                                    &mut found,
+                                );
+                            } else {
+                                // (a poisoned handle is documented as read-only and inconsistent: a
+                                // panic while preparing the changeset is not a successful commit)
+                                let res = std::panic::catch_unwind(std::panic::AssertUnwindSafe(|| {
+                                    let s = n.begin_session(nomt::SessionParams::default());
+                                    s.finish(vec![(uni[0], nomt::KeyReadWrite::Write(Some(vec![9])))]).and_then(|f| f.commit(n))
+                                }));
+                                if matches!(res, Ok(Ok(()))) {
+                                    record_v(
+                                        format!("commit-after-poison:{fclass}"),
+                                        format!("{what}: a later commit on the poisoned handle succeeded"),
+                                        &mut found,
+                                    );
+                                }
+                            }
+                        }
+                    }
+                    let dir = ex.dir.clone();
+                    let _ = ex.finish(Ok(()));
+                    // reopen: exactly pre or post
+                    match std::panic::catch_unwind(|| open_nomt::<B3>(&dir, &cfg0)) {
+                        Err(_) => record_v(format!("reopen-panic:{fclass}"), format!("{what}: reopening afterwards panicked"), &mut found),
+                        Ok(Err(e)) => record_v(format!("reopen-failed:{fclass}"), format!("{what}: reopening afterwards failed: {e:#}"), &mut found),
+                        Ok(Ok(n)) => {
+                            let sides = Sides {
+                                old: &old,
+                                new: if meta_durable { Some(&new) } else { None },
+                                new_required_from: None,
+                            };
+                            if let Err(v) = side_audit(&n, &sides, &uni, 0, &what) {
+                                record_v(format!("atomicity:{fclass}:{}", v.fingerprint), v.msg, &mut found);
+                            }
+                        }
+                    }
+                }
+            }
+        }
+        out.sig = fnv_str(&format!("{}:{}", targets.len(), found.len()));
+        out.states.push(fnv_str(&format!("{:?}", targets)));
+        let mut it = found.into_iter().map(|(fp, msg)| Violation::new(fp, msg));
+        out.violation = it.next();
+        out.more = it.collect();
+        out
+    }
+
+    /// Bucket exhaustion: a batch that needs more merkle pages than the table has buckets.
+    fn run_exhaustion(&mut self, prop: &str, case: &Value) -> Outcome {
+        let hist = &case["hist"];
+        let mut out = Outcome::default();
+        out.nontrivial = true;
+        println!("{}", json!({"progress": format!("x|bucket-exhaustion|commit needing more pages than the {} buckets of the table", hist["cfg"]["buckets"])}));
+        let mut ex = self.hist.start(prop, hist);
+        let r: Result<(), Violation> = (|| {
+            ex.open()?;
+            let ops = hist["ops"].as_array().unwrap();
+            let old = ex.model.clone();
+            let mut failed = false;
+            for (i, op) in ops.iter().enumerate() {
+                match ex.step(i, op) {
+                    Ok(()) => {}
+                    Err(v) if api_error_fingerprint(&v.fingerprint) => {
+                        failed = true;
+                        out.goals.push("exhaustion-reported");
+                        let n = ex.n.as_ref().unwrap();
+                        if !n.is_poisoned() {
+                            return Err(viol("not-poisoned:bucket-exhaustion", format!("commit failed ({}) but the handle is not poisoned", v.msg)));
+                        }
+                        break;
+                    }
+                    Err(v) => return Err(v),
+                }
+            }
+            if !failed {
+                out.goals.push("batch-fitted");
+                return Ok(());
+            }
+            let _ = old;
+            Ok(())
+        })();
+        let model_before = ex.model.clone();
+        let dir = ex.dir.clone();
+        let cfg = ex.cfg.clone();
+        let uni = ex.uni.clone();
+        let mut o = ex.finish(r);
+        o.goals.extend(out.goals.drain(..));
+        o.nontrivial = true;
+        o.transitions += 1;
+        if o.violation.is_none() {
+            // reopen: the failed commit must be invisible (the model was not advanced by it)
+            match open_nomt::<B3>(&dir, &cfg) {
+                Err(e) => o.violation = Some(viol("reopen-failed:bucket-exhaustion", format!("reopen after bucket exhaustion failed: {e:#}"))),
+                Ok(n) => {
+                    if let Err(m) = audit::<B3>(&n, &model_before, &uni, AuditFlags::ALL) {
+                        // the new state is acceptable only if the failed commit's meta swap happened: it cannot, since
+                        // exhaustion is detected before the switch-over
+                        o.violation = Some(viol("atomicity:bucket-exhaustion", format!("after a commit failed with bucket exhaustion and a reopen: {m}")));
+                    }
+                }
+            }
+        }
+        o
+    }
+}
+
 impl Engine for CrashX {
     fn plan(&self, prop: &str, tier: &str) -> Plan {
         crate::plans::crash_plan(prop, tier)
@@ -896,6 +1158,8 @@ impl Engine for CrashX {
     fn run(&mut self, prop: &str, case: &Value) -> Outcome {
         match case["mode"].as_str().unwrap() {
             "c03" | "c04" | "c17" => self.run_cuts(prop, case),
+            "c14" => self.run_faults(prop, case),
+            "c14x" => self.run_exhaustion(prop, case),
             m => panic!("crashx: unknown mode {m}"),
         }
     }
